@@ -775,6 +775,8 @@ func (w *Worker) intrinsic(st *State, f *Frame, x ssa.Value, callee *ssa.Functio
 		}
 	case "strconv.ParseFloat":
 		w.parseFloat(st, set, args[0].(StrV))
+	case "strconv.ParseInt":
+		w.parseInt(st, set, args[0].(StrV), args[1].(Term), args[2].(Term))
 	case "math.Abs":
 		set(fpAbs(args[0].(Term)))
 	case "math.Sqrt":
@@ -928,7 +930,7 @@ func (w *Worker) intrinsic(st *State, f *Frame, x ssa.Value, callee *ssa.Functio
 		}
 	case "strings.Repeat":
 		cnt, ok := args[1].(Term).intVal()
-		if !ok || cnt < 0 || cnt > 100000 {
+		if !ok || cnt < 0 || cnt > 20000000 {
 			panic(engineErr("strings.Repeat with a symbolic or huge count"))
 		}
 		out := StrV{}
@@ -1435,6 +1437,68 @@ func (w *Worker) parseFloat(st *State, set func(Value), s StrV) {
 	}
 	errU.Tag = mkIte(failed, errU.Tag, mkBV(KNil, 8))
 	// on failure ParseFloat returns 0 for syntax errors and ±Inf for range errors: leave the value free but irrelevant
+	set(Tuple{val, errU})
+}
+
+// parseInt: strconv.ParseInt(s, 10, 64). Concrete text is parsed for real; for a text of
+// symbolic code points the documented contract is stated for digit strings: up to 19 digits
+// give their exact value, or a range error when it exceeds MaxInt64; 20 or more digits with a
+// non-zero lead are out of range. Anything else is left open (value and failure unconstrained).
+func (w *Worker) parseInt(st *State, set func(Value), s StrV, base, bits Term) {
+	b, ok1 := base.intVal()
+	bs, ok2 := bits.intVal()
+	if !ok1 || !ok2 {
+		panic(engineErr("ParseInt with a symbolic base or size"))
+	}
+	if c, ok := s.concrete(); ok {
+		v, err := strconv.ParseInt(c, int(b), int(bs))
+		if err != nil {
+			set(Tuple{mkBV(uint64(v), 64), w.mkErr(st, strLit(err.Error()))})
+		} else {
+			set(Tuple{mkBV(uint64(v), 64), nilUnion()})
+		}
+		return
+	}
+	rs, ok := s.runeLevel()
+	if !ok || b != 10 || bs != 64 {
+		panic(engineErr("ParseInt of opaque text or with an unmodelled base/size"))
+	}
+	n := len(rs)
+	if n == 0 || n > 400 {
+		panic(engineErr("ParseInt of a text of unmodelled length"))
+	}
+	bv32 := strings.TrimSpace(strings.Repeat("(_ BitVec 32) ", n))
+	vName, eName := fmt.Sprintf("piV%d", n), fmt.Sprintf("piE%d", n)
+	declareUF(vName, fmt.Sprintf("(declare-fun %s (%s) (_ BitVec 64))", vName, bv32))
+	declareUF(eName, fmt.Sprintf("(declare-fun %s (%s) Bool)", eName, bv32))
+	failed := app(SBool, eName, rs...)
+	val := app(SBV64, vName, rs...)
+	isD := func(r Term) Term { return mkAnd(bvCmp("bvuge", r, mkBV('0', 32)), bvCmp("bvule", r, mkBV('9', 32))) }
+	all := make([]Term, n)
+	for i, r := range rs {
+		all[i] = isD(r)
+	}
+	allD := mkAnd(all...)
+	if n <= 19 {
+		acc := mkBV(0, 64)
+		for i, r := range rs {
+			d := bvBin("bvsub", bvResize(r, 64, false), mkBV('0', 64), false)
+			next := bvBin("bvadd", bvBin("bvadd", bvBin("bvshl", acc, mkBV(3, 64), false), bvBin("bvshl", acc, mkBV(1, 64), false), false), d, false)
+			if _, isConst := next.bvVal(); isConst || i == 0 {
+				acc = next
+			} else {
+				acc = st.fresh(SBV64)
+				st.assume(mkEq(acc, next))
+			}
+		}
+		tooBig := bvCmp("bvugt", acc, mkBV(uint64(1<<63-1), 64))
+		st.assume(mkImplies(allD, mkEq(failed, tooBig)))
+		st.assume(mkImplies(mkAnd(allD, mkNot(tooBig)), mkEq(val, acc)))
+	} else {
+		st.assume(mkImplies(mkAnd(allD, mkNot(mkEq(rs[0], mkBV('0', 32)))), failed))
+	}
+	errU := w.mkErr(st, strLit("strconv.ParseInt: parsing: invalid syntax or value out of range"))
+	errU.Tag = mkIte(failed, errU.Tag, mkBV(KNil, 8))
 	set(Tuple{val, errU})
 }
 
